@@ -74,6 +74,9 @@ type API struct {
 	PanicNotify   func(ctx context.Context, tok int, kind string) error `notify:"true"`
 	PanicSub      func(ctx context.Context, tok int, kind string) (<-chan [2]int, error)
 	CallBack      func(ctx context.Context, tok int) (string, error)
+	CallBackN     func(ctx context.Context, tok int) error `notify:"true"` // a notification whose handler calls back into the client
+	CallBackMany  func(ctx context.Context, tok int, n int, pad int) (string, error)
+	CallBackBig   func(ctx context.Context, tok int, size int) (int, error)
 	CallBackPanic func(ctx context.Context, tok int, kind string) (string, error)
 	CallBackAfter func(ctx context.Context, tok int) (string, error)
 }
@@ -81,8 +84,10 @@ type API struct {
 // RevAPI is what the server calls back on the client.
 type RevAPI struct {
 	Who      func(ctx context.Context, tok int) (string, error)
-	WhoAlias func(ctx context.Context, tok int) (string, error) // resolved through a client-side handler alias
-	WhoTag   func(ctx context.Context, tok int) (string, error) `rpc_method:"R.Who"` // method tag naming the client-side method
+	WhoAlias func(ctx context.Context, tok int) (string, error)             // resolved through a client-side handler alias
+	WhoTag   func(ctx context.Context, tok int) (string, error)             `rpc_method:"R.Who"` // method tag naming the client-side method
+	WhoPad   func(ctx context.Context, tok int, pad string) (string, error) // a reverse call with a large request
+	WhoBig   func(ctx context.Context, tok int, size int) (string, error)   // a reverse call with a large response
 }
 
 type RH struct {
@@ -94,6 +99,16 @@ func (r *RH) Who(ctx context.Context, tok int) (string, error) {
 	r.w.Rec.Emit("RevStart", "call", tok, "peer", r.name)
 	defer r.w.Rec.Emit("RevEnd", "call", tok, "peer", r.name)
 	return r.name, nil
+}
+
+func (r *RH) WhoPad(ctx context.Context, tok int, pad string) (string, error) { return r.name, nil }
+func (r *RH) WhoBig(ctx context.Context, tok int, size int) (string, error) {
+	r.w.Rec.Emit("RevStart", "call", tok, "peer", r.name)
+	select { // the scenario decides when the (large) answer starts to be written
+	case <-r.w.plan(tok).release:
+	case <-time.After(2 * time.Second):
+	}
+	return strings.Repeat("b", size), nil
 }
 
 type Client struct {
@@ -421,6 +436,77 @@ func (h *H) PanicSub(ctx context.Context, tok int, kind string) (<-chan [2]int, 
 	leave("panic")
 	doPanic(kind)
 	return nil, nil
+}
+
+// CallBackBig: a reverse call whose response is large (the client's handler goroutine writes it through the connection's writer).
+func (h *H) CallBackBig(ctx context.Context, tok int, size int) (int, error) {
+	_, leave := h.enter(ctx, tok, "CallBackBig")
+	defer leave("val")
+	rc, ok := jsonrpc.ExtractReverseClient[RevAPI](ctx)
+	if !ok {
+		return 0, nil
+	}
+	rctx, cancel := context.WithTimeout(context.Background(), patience(5*time.Second))
+	defer cancel()
+	s, err := rc.WhoBig(rctx, tok, size)
+	if err != nil {
+		return 0, fmt.Errorf("reverse call failed: %w", err)
+	}
+	return len(s), nil
+}
+
+// CallBackMany: one reverse call with a large request (it keeps the connection's writer busy if the peer is slow to read),
+// then n small ones queueing up behind it; every one of them must end (answer or error), whatever happens to the connection.
+func (h *H) CallBackMany(ctx context.Context, tok int, n int, pad int) (string, error) {
+	p, leave := h.enter(ctx, tok, "CallBackMany")
+	defer leave("val")
+	rc, ok := jsonrpc.ExtractReverseClient[RevAPI](ctx)
+	if !ok {
+		return "no-reverse-client", nil
+	}
+	var wg sync.WaitGroup
+	one := func(f func() error) {
+		wg.Add(1)
+		go func() {
+			defer wg.Done()
+			res := make(chan error, 1)
+			go func() { res <- f() }()
+			select {
+			case err := <-res:
+				h.w.Rec.Emit("RevCallEnd", "call", tok, "failed", err != nil)
+			case <-time.After(patience(3 * time.Second)):
+				h.w.Rec.Emit("RevCallEnd", "call", tok, "failed", false, "blocked", true)
+			}
+		}()
+	}
+	one(func() error { _, err := rc.WhoPad(context.Background(), tok, strings.Repeat("p", pad)); return err })
+	select { // the scenario says when the large request is on its way (the connection's writer is busy with it)
+	case <-p.release:
+	case <-time.After(2 * time.Second):
+	}
+	for i := 0; i < n; i++ {
+		one(func() error { _, err := rc.Who(context.Background(), tok); return err })
+	}
+	wg.Wait()
+	return "many", nil
+}
+
+// CallBackN: the handler of a notification makes a reverse call; the client serving it is connected, so it is answered.
+func (h *H) CallBackN(ctx context.Context, tok int) {
+	_, leave := h.enter(ctx, tok, "CallBackN")
+	defer leave("val")
+	rc, ok := jsonrpc.ExtractReverseClient[RevAPI](ctx)
+	if !ok {
+		return
+	}
+	res := make(chan error, 1)
+	go func() { _, err := rc.Who(context.Background(), tok); res <- err }()
+	select {
+	case err := <-res:
+		h.w.Rec.Emit("RevNotifyResult", "call", tok, "ok", err == nil)
+	case <-time.After(patience(2 * time.Second)):
+		h.w.Rec.Emit("RevNotifyResult", "call", tok, "ok", false)
+	}
 }
 
 func (h *H) CallBack(ctx context.Context, tok int) (string, error) {
@@ -796,6 +882,9 @@ func (c *Client) Call(ctx context.Context, kind string, tok int, arg ...interfac
 	if kind == "retrync" {
 		logKind = "retry" // same contract as any retry-tagged call
 	}
+	if kind == "callbacknotify" {
+		logKind = "notify"
+	}
 	w.Rec.Emit("CallStart", "call", tok, "cli", c.Name, "kind", logKind, "transport", transportOf(c))
 	var err error
 	token := -1
@@ -825,6 +914,17 @@ func (c *Client) Call(ctx context.Context, kind string, tok int, arg ...interfac
 	case "panicnotify":
 		err = c.API.PanicNotify(ctx, tok, arg[0].(string))
 		token = tok
+	case "callbacknotify":
+		err = c.API.CallBackN(ctx, tok)
+		token = tok
+	case "callbackbig":
+		var n int
+		n, err = c.API.CallBackBig(ctx, tok, arg[0].(int))
+		if err == nil && n == arg[0].(int) {
+			token = tok
+		}
+	case "callbackmany":
+		_, err = c.API.CallBackMany(ctx, tok, arg[0].(int), arg[1].(int))
 	case "callbackafter":
 		_, err = c.API.CallBackAfter(ctx, tok)
 	case "callbackpanic":
